@@ -82,12 +82,15 @@ def main():
             V = rng.uniform(0.2, 5.0)
             if kind == 'massaction':
                 k = rng.uniform(0.1, 5.0)
-                # keep every reaction's full complement present so that the safe interface evaluates the closed form
-                x = {s: max(val(), float(reactants.count(s))) for s in ['A', 'B', 'C']}
+                # keep every reaction's full complement present so that the safe interface evaluates the closed form; in a third of the
+                # cases the state is left below the complement (also fractional): there the closed form is 0 and the safe route is skipped
+                below = rng.random() < 0.34
+                x = {s: (rng.uniform(0.0, max(1.0, reactants.count(s))) if below else max(val(), float(reactants.count(s)))) for s in ['A', 'B', 'C']}
                 M = Model(species=['A', 'B', 'C', 'P'], reactions=[(reactants, ['P'], 'massaction', {'k': k})],
                           initial_condition_dict=dict(x, P=0))
                 p = {'k': k}
             else:
+                below = False
                 p = {'k': rng.uniform(0.1, 5), 'K': rng.uniform(0.2, 5), 'n': rng.choice([1, 2, 3, rng.uniform(0.5, 3.5)])}
                 x = {'S': val(), 'D': val()}
                 d = dict(k=p['k'], K=p['K'], n=p['n'], s1='S')
@@ -104,6 +107,8 @@ def main():
                 got = evaluate(M, mode, state, V)
                 n += 1
                 for via, g in got.items():
+                    if below and via == 'safe':
+                        continue
                     if not (abs(g - want) <= 1e-9 * max(1.0, abs(want))):
                         return dict(reproduced=True, call='%s %s mode=%s via=%s state=%s params=%s V=%r' % (kind, reactants, mode, via, x, p, V),
                                     observed=float(g), expected=float(want))
